@@ -225,9 +225,14 @@ def run_real(scn, h, cis):
             worker._enqueue(x)
             return True
 
+    class Abort(Exception):
+        pass
+
     def cb(worker, event, *a):
         if event == 'finished':
             drv.answered.append([worker.id, a[0] if isinstance(a[0], int) else 0])
+            if scn.get('abort_after') and len(drv.answered) == scn['abort_after']:
+                raise Abort('the user callback fails')      # run() is abandoned with inputs still in flight
 
     ret, outcome = [], 'ok'
     try:
@@ -239,13 +244,15 @@ def run_real(scn, h, cis):
         ret = list(e.partial_results or [])
     except Hang:
         outcome = 'hang'
+    except Abort:
+        outcome = 'aborted'
     except Exception as e:  # noqa
         outcome = 'internal_error:' + type(e).__name__
     finally:
         p._map_guard = False
     second = None
     drv.first_deviated, drv.first_cis = drv.deviated, list(drv.real_cis)
-    if scn.get('second_run') and outcome in ('ok', 'poolerror') and any(sw.st == 'run' for sw in drv.workers.values()):
+    if scn.get('second_run') and outcome in ('ok', 'poolerror', 'aborted') and any(sw.st == 'run' for sw in drv.workers.values()):
         # the pool is reusable: a later run() must return results of ITS inputs only (no bookkeeping left behind)
         n2 = scn['n'] or 2
         drv.budget += 40 * (n2 + 3) * (len(scn['W']) + 1)
@@ -308,6 +315,9 @@ def _configs(tier):
         add('W2 N0', n=0, kills=0)
     # refusing enqueue_fn (known findings F07b/F08 live here)
     add('W2 N3 refuse(1,1) kill1', refuse=[(1, 1)], refname='Ref_w1_x1', mc=False)
+    # run() abandoned by an exception of the user's callback with inputs in flight, then run() again on the same pool
+    add('W2 N4 extra1 aborted after 1 result', n=4, kills=0, mc=False)
+    c[-1][2].update(abort_after=1, second_run=True)
     add('W2 N3 refuse(1,1) noretry', retry=False, kills=0, refuse=[(1, 1)], refname='Ref_w1_x1', mc=False)
     add('W2 N2 refuse all', n=2, kills=0, refuse=[(1, 1), (1, 2), (2, 1), (2, 2)], refname='Ref_all', mc=False)
     if tier == 'thorough':
@@ -467,8 +477,9 @@ def run(prop, tier, replay=None):
             h, cis = _tla(hs), _tla(cs)
             obs, drv = run_real(scn, h, cis)
             rid = 'p%d' % len(records)
-            records.append({'id': rid, 'scn': {'n': scn['n'], 'retry': scn['retry']}, 'obs': obs})
-            meta[rid] = {'scn': scn, 'h': h, 'cis': cis, 'label': label}
+            if obs['outcome'] != 'aborted':          # a run abandoned by the user's own exception is not judged, the next one is
+                records.append({'id': rid, 'scn': {'n': scn['n'], 'retry': scn['retry']}, 'obs': obs})
+                meta[rid] = {'scn': scn, 'h': h, 'cis': cis, 'label': label}
             if drv.second is not None:
                 s2 = drv.second
                 alive = obs['alive']
@@ -480,6 +491,8 @@ def run(prop, tier, replay=None):
             n_paths += 1
             mo = 'hang' if m_outcome == 'livelock' else m_outcome
             ro = obs['outcome'].split(':')[0]
+            if ro == 'aborted':
+                continue
             if mo == 'hang' and ro == 'hang' and drv.first_cis[:len(cis)] == cis:
                 pass
             elif drv.first_deviated or ro != mo or (mo in ('ok', 'poolerror') and obs['ret'] != _tla(m_ret)):
